@@ -971,6 +971,7 @@ fn core_opts(faults: bool) -> Opts {
         division: true,
         faults,
         jumps_out: false,
+        relayout: false,
     }
 }
 
